@@ -510,23 +510,38 @@ func ruleThresholds(c *Ctx) {
 					if !isIf || ok {
 						return !ok
 					}
-					be, isB := ast.Unparen(ifs.Cond).(*ast.BinaryExpr)
-					if !isB || be.Op != token.LOR {
+					// a disjunction containing `oSig[1] != 0` and `oSig[0] > C` (further exits may be or-ed in)
+					var disj []ast.Expr
+					var flat func(e ast.Expr)
+					flat = func(e ast.Expr) {
+						if be, isB := ast.Unparen(e).(*ast.BinaryExpr); isB && be.Op == token.LOR {
+							flat(be.X)
+							flat(be.Y)
+							return
+						}
+						disj = append(disj, ast.Unparen(e))
+					}
+					flat(ifs.Cond)
+					if len(disj) < 2 {
 						return true
 					}
-					l, okl := ast.Unparen(be.X).(*ast.BinaryExpr)
-					r, okr := ast.Unparen(be.Y).(*ast.BinaryExpr)
-					if !okl || !okr || l.Op != token.NEQ || r.Op != token.GTR {
-						return true
+					hiTest := false
+					var loK int64
+					loTest := false
+					for _, dj := range disj {
+						x, op, kv, isCmp := p.normCmp(dj)
+						if !isCmp || !kv.IsInt64() {
+							continue
+						}
+						switch {
+						case p.exprStr(x) == "oSig[1]" && ((op == token.NEQ && kv.Int64() == 0) || (op == token.GTR && kv.Int64() == 0)):
+							hiTest = true
+						case p.exprStr(x) == "oSig[0]" && op == token.GTR:
+							loTest, loK = true, kv.Int64()
+						}
 					}
-					if p.exprStr(l.X) != "oSig[1]" || p.exprStr(r.X) != "oSig[0]" {
-						return true
-					}
-					if z, isC := p.constInt64(l.Y); !isC || z != 0 {
-						return true
-					}
-					if v, isC := p.constInt64(r.Y); isC {
-						k, node, ok = v, ifs, true
+					if hiTest && loTest {
+						k, node, ok = loK, ifs, true
 					}
 					return true
 				})
